@@ -185,10 +185,13 @@ class LexInf(Inference):
             return True
         if min_len_f < min_len_v:
             return False
+        if partition_index == 0:
+            return False
+        # The query holds iff the best continuation of some minimum verifying set is strictly
+        # better than the continuation of every minimum falsifying set.
         for xi_v in min_mcs_v:
+            better_than_all = True
             for xi_f in min_mcs_f:
-                if partition_index == 0:
-                    return False
                 hard_constraints_new_v = hard_constraints_v.copy()
                 hard_constraints_new_f = hard_constraints_f.copy()
                 for i in part:
@@ -219,9 +222,12 @@ class LexInf(Inference):
                     deadline,
                 )
                 if result == False:
-                    return False
+                    better_than_all = False
+                    break
+            if better_than_all:
+                return True
 
-        return True
+        return False
 
 
 """
